@@ -161,8 +161,19 @@ pub fn check_analyzer(g: &G, stats: &mut Stats) -> Vec<Failure> {
                 src.push_str(&format!("    pub to_{}: Vec<{}>,\n", v, name(v)));
             }
         }
+        if u % 2 == 1 {
+            // a type the project does not define (an external crate's): still a dependency
+            src.push_str(&format!("    pub ext: Option<{}>,\n", name(g.n)));
+        }
         src.push_str("}\n\n");
     }
+    // the model graph gets the external type as node n
+    let mut ext = G { n: g.n + 1, adj: g.adj.clone(), multi: vec![] };
+    ext.adj.push(0);
+    for u in (1..g.n).step_by(2) {
+        ext.adj[u] |= 1 << g.n;
+    }
+    let model = ext;
     let params: Vec<String> = (0..g.n).map(|i| format!("p{}: {}", i, name(i))).collect();
     src.push_str(&format!("#[tauri::command]\npub fn root({}) {{}}\n", params.join(", ")));
     let dir = crate::tool::fresh_dir("c20a");
@@ -187,7 +198,7 @@ pub fn check_analyzer(g: &G, stats: &mut Stats) -> Vec<Failure> {
             Ok(r) => r,
             Err(p) => return vec![Failure::new("panic").tag("routine=analyzer").observed(p).expected("an ordering").case(case)],
         };
-        fails.extend(verify_order(g, requested, &res, "routine=analyzer", &case));
+        fails.extend(verify_order(&model, requested, &res, "routine=analyzer", &case));
         if !fails.is_empty() {
             break;
         }
